@@ -76,7 +76,24 @@ def run(ck, w):
              if any("IndexEntry" in sn.locals[flow.operand_local(op)] for op in s["rv"]["ops"] if flow.operand_local(op) is not None)
              and s["pl"]["l"] == 0]
     good = True
-    if not pre or not exc or not somes:
+    retain = common.stitch_retain_idiom(w) if not pre else None
+    if retain is not None and exc and somes:
+        # the subtree test is applied to every hunk before it is buffered (retain idiom): only the exclusion test is per entry
+        ee = set()
+        for e in exc:
+            ee |= rules.bool_switch_edges(sn, e, False)
+        for bb in somes:
+            if not ee or not sn.must_pass_edges(ee, bb):
+                good = False
+                ck.fail(o, sn.name, "entry returned without the exclusion test", "path: %s" % rules.witness(sn, bb, removed_edges=ee))
+        er = flow.origins_x(lib, sn, exc[0].args[0])
+        if not any(x[0] in ("param", "upvar") and "exclude" in x[2] for x in er):
+            good = False
+            ck.fail(o, sn.name, "exclusion test not on self.exclude", "receiver %s" % flow.origin_summary(er), exc[0].site())
+        if good:
+            ck.ok(o, "subtree filter applied per hunk with retain(is_prefix_of)", sites=[retain.site(), exc[0].site()], instances=len(somes))
+            good = False    # already reported
+    elif not pre or not exc or not somes:
         good = False
         ck.fail(o, sn.name, "filter missing", "is_prefix_of=%d matches=%d returns=%d" % (len(pre), len(exc), len(somes)))
     else:
